@@ -8,6 +8,7 @@ import (
 	"runtime"
 	"sort"
 	"strings"
+	"time"
 
 	coraza "github.com/corazawaf/coraza/v3"
 	"github.com/corazawaf/coraza/v3/experimental/plugins"
@@ -62,8 +63,8 @@ var kinds = []ruleT{
 	{Target: "REQUEST_HEADERS", Kind: "plain"},
 	{Target: "ARGS_GET", Kind: "mvar"},
 	{Target: "ARGS_GET:a", Kind: "mvars"},
-	{Target: "ARGS_GET", Kind: "mvart"},  // starter with t:trimRight: MATCHED_VAR is a sub-string (same address, other length) of the raw value
-	{Target: "ARGS_GET", Kind: "multi"},  // multiMatch rule: sees the original and every intermediate value
+	{Target: "ARGS_GET", Kind: "mvart"}, // starter with t:trimRight: MATCHED_VAR is a sub-string (same address, other length) of the raw value
+	{Target: "ARGS_GET", Kind: "multi"}, // multiMatch rule: sees the original and every intermediate value
 	{Target: "", Kind: "env"},
 	{Target: "", Kind: "rule"},
 }
@@ -229,6 +230,7 @@ func run(c *runner.Ctx) {
 }
 
 func checkProgram(c *runner.Ctx, rules []ruleT, bound int) {
+	defer c.Watch("program", kase{Rules: rules}, 3*time.Minute)()
 	conf, refConf := fix(render(rules, false)), fix(render(rules, true))
 	w, err := scen.Build(conf)
 	if err != nil {
